@@ -5,6 +5,7 @@ from flow import tracer, short, required_outcomes, dep_closure, is_next_switch
 from schedule import schedule
 from callgraph import callgraph
 import rules.C14 as C14
+import rules.C05 as C05
 
 EXPLANATION = (
     "R1: closed, classified table of every RepliconServer::send call site in the workspace. R2: the replication sites are "
@@ -134,10 +135,12 @@ def r3_dependent_events(ctx):
                 src = {(x.kind, x.data) for x in tr.place(c["place"])}
                 if src & {(x.kind, x.data) for x in ticks}:
                     on_some = True
-        ctx.check(on_some, "send_all/bb%d/guarded-by-ticks-Some" % bb, site_of(sa, bb),
+        arm = C05._mode_arm(F, sa, bb) if hasattr(C05, "_mode_arm") else None
+        arm = arm or "send"
+        ctx.check(on_some, ctx.nth("send_all/%s/guarded-by-ticks-Some" % arm), site_of(sa, bb),
                   "a dependent server event is sent to a client without checking that the client has tick state (i.e. is authorized)")
         same = {(x.kind, x.data) for x in ticks} & {(x.kind, x.data) for x in client}
-        ctx.check(bool(same), "send_all/bb%d/ticks-belong-to-recipient" % bb, site_of(sa, bb), "the ticks used to stamp the event belong to a different client than the recipient")
+        ctx.check(bool(same), ctx.nth("send_all/%s/ticks-belong-to-recipient" % arm), site_of(sa, bb), "the ticks used to stamp the event belong to a different client than the recipient")
     # the sender stamps with the recipient's update tick and sends to the given client
     bs = ctx.fn("BufferedServerEvent::send")
     btr = tracer(bs)
